@@ -43,27 +43,33 @@ Grammars == IF FULL THEN { <<s1, s2, a1, a2, b1, pb>> : s1 \in SBodies, s2 \in S
             ELSE { <<s1, s2, a1, a2, b1, pb>> : s1 \in SBodies, s2 \in {T(<<X>>)}, a1 \in ABodies, a2 \in {NT("b")}, b1 \in {T(<<X>>)}, pb \in BOOLEAN }
 \* query modes: "rest" phrase(s(A), Input, Rest); "all" phrase(s(A), Input); "gen" phrase(s(A), L)
 \*              "rem1" / "rem2" phrase(s(A), Input, Suffix) with the remainder GIVEN: the last one / two elements of the input
-Modes == IF GEN THEN {"rest", "all", "gen", "rem1", "rem2"} ELSE {"rest", "all", "rem1", "rem2"}
-VARIABLES st, hist, gr, inp, mode
-gvars == <<st, hist, gr, inp, mode>>
+\*              "direct" phrase(Body, Input, Rest) with a BODY given directly ([] and ! included), not a non-terminal of the grammar
+Modes == IF GEN THEN {"rest", "all", "gen", "rem1", "rem2", "direct"} ELSE {"rest", "all", "rem1", "rem2", "direct"}
+DirectBodies == << Nil, A("!"), T(<<X>>), And(T(<<X>>), Nil), And(A("!"), T(<<X>>)), NT("b"), C("\\+", <<T(<<X>>)>>), C("{}", <<A("true")>>), C(";", <<Nil, T(<<X>>)>>),
+                   And(Nil, A("!")), C("|", <<A("!"), T(<<Y>>)>>) >>
+VARIABLES st, hist, gr, inp, mode, db
+gvars == <<st, hist, gr, inp, mode, db>>
 
-Query(m, i) == CASE m = "rest" -> C("s", <<V(1), T(i), V(2)>>)
+Query(m, i, k) == CASE m = "rest" -> C("s", <<V(1), T(i), V(2)>>)
                  [] m = "all" -> C("s", <<V(1), T(i), Nil>>)
                  [] m = "gen" -> C("s", <<V(1), V(2), Nil>>)
+                 [] m = "direct" -> Body(DirectBodies[k], T(i), V(2), 3).g
                  [] m = "rem1" -> C("s", <<V(1), T(i), T(SubSeq(i, Len(i), Len(i)))>>)
                  [] m = "rem2" -> C("s", <<V(1), T(i), T(SubSeq(i, Len(i) - 1, Len(i)))>>)
-GInit == /\ gr \in Grammars /\ mode \in Modes
+GInit == /\ mode \in Modes
+         /\ gr \in (IF mode = "direct" THEN {CHOOSE g \in Grammars : g[6] = FALSE} ELSE Grammars)      \* one grammar is enough for the direct bodies
+         /\ db \in (IF mode = "direct" THEN 1..Len(DirectBodies) ELSE {0})
          /\ inp \in (IF mode = "gen" THEN {<<>>} ELSE IF mode = "rem1" THEN { i \in Inputs : Len(i) >= 1 } ELSE IF mode = "rem2" THEN { i \in Inputs : Len(i) >= 2 } ELSE Inputs)
-         /\ st = InitState(Db(gr[1], gr[2], gr[3], gr[4], gr[5], gr[6]), Query(mode, inp), 2)
+         /\ st = InitStateX(Db(gr[1], gr[2], gr[3], gr[4], gr[5], gr[6]), Query(mode, inp, db), 2, 12)
          /\ hist = <<>>
 Answers == Len(SelectSeq(hist, LAMBDA e : e.ev = "ans"))
 GNext == /\ ~Terminal(st)
          /\ \E t \in Steps(st) : /\ (st.status = "answer" => IF mode = "gen" /\ Answers >= 4 THEN t.status = "closed" ELSE t.status # "closed")
                                  /\ st' = t
                                  /\ hist' = IF t.ev.ev \in {"ans", "end"} THEN Append(hist, t.ev) ELSE hist
-         /\ UNCHANGED <<gr, inp, mode>>
+         /\ UNCHANGED <<gr, inp, mode, db>>
 GSpec == GInit /\ [][GNext]_gvars
-Emit == Judged(st) => PrintT("CASE " \o ToJson([gr |-> gr, inp |-> inp, mode |-> mode, events |-> hist]))
+Emit == Judged(st) => PrintT("CASE " \o ToJson([gr |-> gr, inp |-> inp, mode |-> mode, events |-> hist, body |-> IF db = 0 THEN Nil ELSE DirectBodies[db]]))
 Bound == Len(hist) < 60 /\ Len(st.bind) < 400
 
 \* --- U1: the translated grammar accepts exactly what plain derivation accepts (grammars without cut, \+, {}, call, ->, arguments of a and push-back are
